@@ -112,6 +112,8 @@ class ConfigList(ComposedNode, list):
         list.clear(self)
 
     def extend(self, other):
+        if other is self:
+            other = list.copy(self) # "l.extend(l)": iterate over a snapshot, otherwise every appended element would be visited as well and the loop would never end
         for val in other:
             self.append(val)
 
